@@ -153,7 +153,7 @@ def finite(*arrays):
 # ----------------------------------------------------------------------------------------------
 # running the model in Coq
 # ----------------------------------------------------------------------------------------------
-HEADER = """From Coq Require Import ZArith List PrimFloat.
+HEADER = """From Coq Require Import ZArith List PrimFloat String.
 From OAS Require Import Scalar Fops Run Dual DRun %s.
 Import ListNotations.
 Open Scope float_scope.
